@@ -89,6 +89,7 @@ def explore(res, rng, n, exhaustive=None):
     quiet_matrix(res, rng, max(20, n // 50))
     cyc.micro_stream(res, ['rainflow'], rng, max(30, n // 25), pred)
     cyc.extreme_scale_stream(res, ['rainflow'], rng, max(12, n // 60))
+    cyc.narrow_dtype_stream(res, ['rainflow'], rng, max(10, n // 80))
     res.samples += [{'history': h, 'scale_2^-s': s} for h, s in cases[len(corpus()):len(corpus()) + 3]]
 
 
